@@ -440,7 +440,7 @@ pub fn decode_bad(t: &mut Tape) -> BadCase {
         // probes on every interesting axis: type, party, scheme
         for (ty, src) in [("script", ""), ("image", "same"), ("document", "other"), ("xhr", "same"), ("font", "other"), ("subdocument", "same")] {
             let source = match src {
-                "same" => gen::source_for(&mut Tape::new(&[0]), u, &[]),
+                "same" => gen::source_for(&mut Tape::zero_filled(&[0]), u, &[]),
                 "other" => "https://a.com/".to_string(),
                 _ => "https://sub.b.com/".to_string(),
             };
